@@ -106,7 +106,7 @@ func checkC16(c *Check) {
 	if r := c.need("R6b", "internal/endpoint/smtp", "Endpoint", "wrapErr"); r != nil {
 		info := r.Info
 		flag := paramObjs(r.FI)["mangleUTF8"]
-		isMsgField := func(e ast.Expr) bool { fv := fieldOf(info, e); return fv != nil && fv.Name() == "Message" }
+		isMsgField := func(e ast.Expr) bool { fv := fieldOf(info, e); return fv != nil && objName(fv) == "Message" }
 		// the mask: a store to X.Message of a builder's text where the builder is filled in a range over X.Message,
 		// or of f(X.Message) with f a function of this package that carries the mask itself
 		var ranged []*ast.RangeStmt
@@ -1102,7 +1102,7 @@ func c16ReplyText(c *Check) {
 						continue
 					}
 					fv := fieldVarOf(fa)
-					if fv == nil || fv.Name() != "Message" || !isSMTPErrorType(fa.X.Type()) {
+					if fv == nil || objName(fv) != "Message" || !isSMTPErrorType(fa.X.Type()) {
 						continue
 					}
 					nstores++
@@ -1135,7 +1135,7 @@ func errTextSource(v ssa.Value, seen map[ssa.Value]bool, depth int) (string, tok
 	switch x := v.(type) {
 	case *ssa.Call:
 		cc := &x.Call
-		if cc.IsInvoke() && cc.Method.Name() == "Error" && isErrorType(cc.Value.Type()) {
+		if cc.IsInvoke() && objName(cc.Method) == "Error" && isErrorType(cc.Value.Type()) {
 			return "error.Error()", x.Pos()
 		}
 		name := ssaCalleeName(cc)
